@@ -366,7 +366,32 @@ def rule_gst(S):
                     c = g.ch(n)
                     tgt = R.global_ref(g, c[0]) if c else None
                 if tgt in atomics:
-                    out.setdefault(tgt, (g.qname, short_loc(n)))
+                    # the stored value, when it is a constant
+                    val = None
+                    args_ = call_args(g, n) if n['k'] == 'CXXMemberCallExpr' else \
+                        ([g.node(x) for x in n.get('args', [])][1:] if n['k'] == 'CXXOperatorCallExpr' else g.ch(n)[1:])
+                    from yk.facts import cv_through
+                    if args_:
+                        val = cv_through(g, args_[0])
+                        if val is None:
+                            c0 = R.const_of(g, g.strip(args_[0], casts=True))
+                            val = {'T': 1, 'F': 0}.get(c0)
+                    vals = [val]
+                    if val is None and args_:
+                        # a setter: the value is a parameter - take the constants passed at the call sites on this path
+                        x0 = g.strip(args_[0], casts=True)
+                        pi = [i for i, p_ in enumerate(g.params) if x0 is not None and x0.get('id') == p_['id']]
+                        if pi:
+                            vals = []
+                            for h in reach.values():
+                                for c in h.all_nodes():
+                                    if c['k'] in CALL_KINDS and c.get('callee') == g.fid:
+                                        ca = call_args(h, c)
+                                        vals.append(cv_through(h, ca[pi[0]]) if pi[0] < len(ca) else None)
+                            vals = vals or [None]
+                    out.setdefault(tgt, [])
+                    for v_ in vals:
+                        out[tgt].append((g.qname, short_loc(n), v_))
         return out
 
     fin = [f for f in facts.by_qname(Y + 'fin') if not f.cls]
@@ -377,10 +402,15 @@ def rule_gst(S):
     S.count('R-GST: process-wide atomics', len(atomics))
     S.require('R-GST', 'process-wide atomics written on the fin() path', len(wf), 2)
     for q in sorted(wf):
-        S.ob('R-GST', Y + 'init', 'reset of ' + q, q in wi,
-             'written on the init() path too' if q in wi else
+        ini_v = facts.globals[q].get('init_cv')
+        # stores of the static initialiser's own value leave the next cycle where the first one started
+        harmful = [w for w in wf[q] if not (w[2] is not None and ini_v is not None and str(w[2]) == str(ini_v))]
+        ok = (q in wi) or not harmful
+        w0 = (harmful or wf[q])[0]
+        S.ob('R-GST', Y + 'init', 'reset of ' + q, ok,
+             ('stored on the init() path too' if q in wi else 'fin() only stores the initial value %s' % ini_v) if ok else
              '%s is written by %s (reachable from fin) and nothing reachable from init() resets it: every cycle after the '
-             'first starts with the value the previous fin() left' % (q, wf[q][0]), loc=wf[q][1])
+             'first starts with the value the previous fin() left (initial value: %s)' % (q, w0[0], ini_v), loc=w0[1])
 
 
 def run(S):
